@@ -44,6 +44,8 @@ type HarnessResult struct {
 	SolverS    float64            `json:"solver_s"`
 	Cross      int                `json:"cross_checks"`
 	CrossBad   int                `json:"cross_disagreements"`
+	Escalated  int                `json:"assert_queries_escalated,omitempty"`
+	EscDecided int                `json:"assert_queries_escalated_decided,omitempty"`
 	WallS      float64            `json:"wall_s"`
 	Errors     map[string]int     `json:"errors,omitempty"`
 	Funcs      []string           `json:"functions_encoded"`
@@ -344,7 +346,7 @@ func runHarness(workers []*Worker, name string, fn *ssa.Function) HarnessResult 
 	r := HarnessResult{Harness: name, Paths: st.Paths, PathsOK: st.PathsOK, PathsNT: st.PathsNontrivial, PathsEnded: st.PathsAssumeEnd, PathsErr: st.PathsError,
 		PathsBudg: st.PathsBudget, Reached: st.ReachWitness, Asserts: st.AssertsChecked, AssertsSym: st.AssertsSymbolic,
 		Branches: st.Branches, Forks: st.Forks, Steps: st.Steps, Queries: st.Queries, QSat: st.QSat, QUnsat: st.QUnsat, QUnknown: st.QUnknown,
-		SolverS: st.SolverTime.Seconds(), Cross: st.CrossChecks, CrossBad: st.CrossDisagree, WallS: time.Since(t0).Seconds(),
+		SolverS: st.SolverTime.Seconds(), Cross: st.CrossChecks, CrossBad: st.CrossDisagree, Escalated: st.Escalated, EscDecided: st.EscalatedDecided, WallS: time.Since(t0).Seconds(),
 		Errors: st.Errors, Stubs: st.Stubs, Samples: st.Samples, Violations: st.Violations, Witnesses: st.Witnesses, Notes: st.Notes, NoteErr: st.NoteErr, NoteSolver: st.NoteSolver}
 	for f := range st.Funcs {
 		r.Funcs = append(r.Funcs, f)
